@@ -191,6 +191,7 @@ type gpkg struct {
 	inline           map[string]bool   // functions of the package that are executed in place (they return / write slices)
 	opaqueLenZero    bool              // the variadic dataTranscript is specialised to no data
 	lensNames        map[string]string // readable names of specialisations
+	namePrefix       string            // prefix of the def names (defs of another package emitted into this file)
 	subPkgs          map[string]*gpkg
 	hashNil          bool // this translation run: hash.Hash parameters are nil
 	nameSuffix       string
@@ -405,6 +406,8 @@ func (p *gpkg) typeOf(e ast.Expr) *gtype {
 			return &gtype{k: gLineElt}
 		case x.Name == "kzg":
 			return p.subPkg("kzg", "kzg.go").typeOf(e.Sel)
+		case x.Name == "shplonk":
+			return p.subPkg("shplonk", "shplonk.go").typeOf(e.Sel)
 		case x.Name == "fiatshamir" && e.Sel.Name == "Transcript":
 			return &gtype{k: gFS}
 		case x.Name == "fr" && e.Sel.Name == "Element" && p.frIsCoord:
@@ -495,6 +498,8 @@ type gtr struct {
 	inout       []int                        // second pass: the targets returned after the results
 	coords      map[cellID]map[string]cellID // coordinate cells of a point variable
 	coordOf     map[cellID]cellID            // coordinate cell -> its point
+	calleePkg   *gpkg                        // set while a function of another package is called
+	falseConds  map[string]bool              // run-time conditions known to be false here (we are in the else-branch of a test of them)
 	retHook     func([]*gv)                  // non-nil while a function is executed in place
 	inlineDepth int
 }
@@ -1089,6 +1094,9 @@ func (x *gtr) binary(s *gscope, e *ast.BinaryExpr) *gv {
 		if c == "" {
 			c = fmt.Sprintf("(%s != Res.ok)", v.term)
 		}
+		if x.falseConds[c] && e.Op == token.NEQ {
+			return mkBool(false) // this very error was tested before and we are on the path where it is nil
+		}
 		if e.Op == token.EQL {
 			c = "(!" + c + ")"
 		}
@@ -1515,6 +1523,19 @@ func (x *gtr) call(s *gscope, c *ast.CallExpr) []*gv {
 						x.lines = append(x.lines, fmt.Sprintf("let %s : Bool := pairingCheck %s %s", n, leanListOf(ps), leanListOf(qs)))
 						return []*gv{{t: &gtype{k: gBool}, term: n}, nilErr}
 					}
+					if id.Name == "shplonk" && f.Sel.Name == "BatchVerify" {
+						sub := x.p.subPkg("shplonk", "shplonk.go")
+						sub.classes, sub.typeArgs, sub.fixedParams, sub.fixedArgs = x.p.classes, x.p.typeArgs, x.p.fixedParams, x.p.fixedArgs
+						sub.opaqueLenZero, sub.namePrefix, sub.inline = true, "shplonk_", shplonkInline
+						fd, ok := sub.funcs["BatchVerify"]
+						if !ok {
+							reject("%s: shplonk.BatchVerify not found", x.fname)
+						}
+						x.calleePkg = sub
+						rs := x.callFn(s, fd, "BatchVerify", nil, c)
+						x.calleePkg = nil
+						return rs
+					}
 					reject("%s: call of %s is outside the supported subset", x.fname, gexpr(f))
 				}
 			}
@@ -1708,7 +1729,11 @@ func (x *gtr) callFn(s *gscope, fd *ast.FuncDecl, key string, recv *cellID, c *a
 		}
 		x.flatten(v, &terms, &lens)
 	}
-	cv := x.p.translate(key, lens)
+	pk := x.p
+	if x.calleePkg != nil {
+		pk = x.calleePkg
+	}
+	cv := pk.translate(key, lens)
 	for _, u := range cv.uparams {
 		if u.site {
 			reject("%s: callee %s has per-call-site parameters", x.fname, key)
@@ -1859,6 +1884,10 @@ func (x *gtr) ifStmt(s *gscope, st *ast.IfStmt, rest func() string) string {
 		reject("%s: run-time `if %s` inside a function executed in place", x.fname, gexpr(st.Cond))
 	}
 	saved := x.cloneStore()
+	savedFalse := map[string]bool{}
+	for k := range x.falseConds {
+		savedFalse[k] = true
+	}
 	thenS := x.capture(func() string {
 		return x.exec(&gscope{vars: map[string]cellID{}, parent: inner}, st.Body.List, func() string {
 			reject("%s: the then-branch of a run-time `if %s` falls through (only early returns are supported)", x.fname, gexpr(st.Cond))
@@ -1866,6 +1895,8 @@ func (x *gtr) ifStmt(s *gscope, st *ast.IfStmt, rest func() string) string {
 		})
 	})
 	x.store = saved
+	savedFalse[cv.term] = true // from here on (the else-branch and everything after it) the condition is known to be false
+	x.falseConds = savedFalse
 	elseS := x.capture(func() string {
 		return x.exec(&gscope{vars: map[string]cellID{}, parent: inner}, elseStmts(), rest)
 	})
@@ -2108,7 +2139,7 @@ func lensKey(lens []int) string {
 }
 
 func (p *gpkg) translate(key string, lens []int) *gvariant {
-	name := strings.ReplaceAll(key, ".", "_") + lensKey(lens)
+	name := p.namePrefix + strings.ReplaceAll(key, ".", "_") + lensKey(lens)
 	if n, ok := p.lensNames[name]; ok {
 		name = n
 	}
@@ -2244,8 +2275,22 @@ func (p *gpkg) emit(ns, fileName, extra string) {
 	for _, h := range p.header {
 		b.WriteString(h + "\n")
 	}
+	var all []*gvariant
+	var subNames []string
+	for k := range p.subPkgs {
+		subNames = append(subNames, k)
+	}
+	sort.Strings(subNames)
+	for _, k := range subNames {
+		q := p.subPkgs[k]
+		for _, n := range q.order {
+			all = append(all, q.variants[n])
+		}
+	}
 	for _, n := range p.order {
-		v := p.variants[n]
+		all = append(all, p.variants[n])
+	}
+	for _, v := range all {
 		var ps []string
 		if p.fixedParams != "" {
 			ps = append(ps, p.fixedParams)
@@ -2297,6 +2342,9 @@ func (p *gpkg) checkNewSRSLines() string {
 	return fmt.Sprintf("/-- NewSRS: every one of the %d assignments to `srs.Vk.Lines[i]` is `PrecomputeLines(srs.Vk.G2[i])` (checked by the translator on this run),\nso `pairingCheckFixedQ [A, B] vk.Lines` stands for  e(A, vk.G2[0]) · e(B, vk.G2[1]) = 1,  vk.G2 = [G₂, [α]G₂]. -/\ndef NewSRS_lines_from_G2 : List Nat := %v\n\n",
 		seen[0]+seen[1], strings.ReplaceAll(fmt.Sprint([]int{seen[0], seen[1]}), " ", ", "))
 }
+
+var shplonkInline = map[string]bool{"deriveChallenge": true, "flatten": true, "eval": true, "mulByConstant": true, "multiplyLinearFactor": true,
+	"buildZtMinusSi": true, "buildVanishingPoly": true, "interpolate": true, "buildLagrangeFromDomain": true}
 
 const shClasses = groupClasses + " [_root_.Inv S]"
 
@@ -2411,6 +2459,29 @@ func runGroup() {
 				p.translate("BatchVerify", lens)
 			}
 			p.emit("shplonk_"+lc, "Shplonk_"+lc+".lean", "")
+		})
+	}
+	for _, c := range groupCurves {
+		lc := strings.ReplaceAll(c, "-", "_")
+		guard("fflonk "+c, func() {
+			p := loadGroupPkg("fflonk_"+lc, "ecc/"+c+"/fflonk", "fflonk.go")
+			p.classes = shClasses + " [_root_.BEq S]"
+			p.opaqueLenZero = true
+			p.inline = map[string]bool{"eval": true, "extendSet": true}
+			p.uninterp["getIthRootOne"] = "root"
+			// (packs, polynomials per pack t, points per pack): proof.SOpeningProof.ClaimedValues [][], proof.ClaimedValues [][][], digests, points
+			p.lensNames = map[string]string{}
+			for _, sh := range [][2]int{{1, 1}, {2, 1}} {
+				t, m := sh[0], sh[1]
+				lens := []int{1, t * m, 1, t}
+				for i := 0; i < t; i++ {
+					lens = append(lens, m)
+				}
+				lens = append(lens, 1, 1, m)
+				p.lensNames["BatchVerify"+lensKey(lens)] = fmt.Sprintf("BatchVerify_t%d_m%d", t, m)
+				p.translate("BatchVerify", lens)
+			}
+			p.emit("fflonk_"+lc, "Fflonk_"+lc+".lean", "")
 		})
 	}
 	for _, d := range eddsaDirs {
